@@ -208,6 +208,19 @@ let bufio_case (size : int) (limit : int) (ops : string) : string =
   obs := Printf.sprintf "%d,%d,%s" (List.length b'.w_dest.d_acc) (List.length b'.w_buf) (s_of_bool err) :: !obs;
   String.concat "|" (List.rev !obs) ^ "|" ^ hex_of_bytes b'.w_dest.d_acc
 
+(* ---------- C15: IDs call sequences ---------- *)
+let ids_case (ops : string) : string =
+  let t = ref [] in
+  let obs = List.map (fun o ->
+    match o.[0] with
+    | 'p' -> t := put !t (bytes_of_hex (String.sub o 1 (String.length o - 1))); ""
+    | 'g' -> let h = o.[1] = '1' in
+             (match idsGenerate !t (bytes_of_hex (String.sub o 2 (String.length o - 2))) h with
+              | Ok (r, t') -> t := t'; hex_of_bytes r
+              | Panic -> "PANIC" | OutOfFuel -> "FUEL")
+    | _ -> failwith "ids op") (split_on ' ' ops) in
+  String.concat "|" obs
+
 let eval (fn : string) (args : string list) : string =
   match fn, args with
   | "AstProg", [n; prog] -> let (_, _, o) = run_ast_prog (int_of_string n) prog in o
@@ -225,6 +238,7 @@ let eval (fn : string) (args : string list) : string =
      | Panic, _ | _, Panic -> "PANIC"
      | _, _ -> "FUEL")
   | "Prio", [role; d] -> prio_case role d
+  | "IdsProg", [ops] -> ids_case ops
   | "Bufio", [size; limit; ops] -> bufio_case (int_of_string size) (int_of_string limit) ops
   | "ReaderProg", [src; script] ->
     let b = bytes_of_hex src in
